@@ -28,4 +28,8 @@ def handle : List Sx → Sx
     | _, _ => Sx.bad
   | _ => Sx.bad
 
+/-- request names served by this module (collected into `JinjaV.Wire.All` by tools/gen_wire_all.py) -/
+def handlers : List (String × (List Sx → Sx)) :=
+  [("undef", handle)]
+
 end JinjaV.Wire.Undefined
